@@ -1,5 +1,296 @@
-/- C07 — property theorems (to be written). -/
-import SoundeventModel.Basic
+/-
+  C07 — Matching is an optimal one-to-one assignment that covers every geometry once.
+  Property theorems only (helper lemmas: Proofs/Lemmas/Matching.lean).
+
+  `selectMatches n m aff assigned` is `list(match_geometries(source, target))` with the
+  `n × m` affinity matrix `aff` and the answer `assigned` of
+  `scipy.optimize.linear_sum_assignment(aff, maximize=True)` as parameters.
+  `ValidAssignment` is scipy's contract (rows distinct, columns distinct, in range); it is
+  evaluated on scipy's answer on every case of the check.
+-/
+import Proofs.Lemmas.Matching
 namespace SE.Proofs.C07
+open SE SE.Matching
+
+/-- scipy's contract for the answer of `linear_sum_assignment` on an `n × m` matrix -/
+abbrev ValidAssignment (n m : Nat) (assigned : List (Nat × Nat)) : Prop := PartialInjection n m assigned
+
+/-- the executable form of the contract (what the check evaluates) is the contract -/
+theorem C07_contract_decidable (n m : Nat) (assigned : List (Nat × Nat)) :
+    validAssignment n m assigned = true ↔ ValidAssignment n m assigned :=
+  validAssignment_iff n m assigned
+
+/-- under scipy's contract `_select_matches` never raises and its result is: the assigned
+    pairs of positive affinity, then the left-over rows, then the left-over columns -/
+theorem C07_total (n m : Nat) (aff : Mat) (assigned : List (Nat × Nat))
+    (h : ValidAssignment n m assigned) :
+    selectMatches n m aff assigned = .ok (closedForm n m aff assigned) :=
+  selectMatches_eq_closed n m aff assigned h
+
+/-- every source index `0..n-1` and every target index `0..m-1` is mentioned exactly once
+    (the mentioned indices are a permutation of the index range), and no entry is empty -/
+theorem C07_cover (n m : Nat) (aff : Mat) (assigned : List (Nat × Nat)) (out : List Entry)
+    (h : ValidAssignment n m assigned) (hout : selectMatches n m aff assigned = .ok out) :
+    (srcs out).Perm (List.range n) ∧ (tgts out).Perm (List.range m) ∧
+      ∀ e ∈ out, e.src ≠ none ∨ e.tgt ≠ none := by
+  rw [C07_total n m aff assigned h] at hout
+  cases hout
+  have hk := h.sublist (keptPairs_sublist aff assigned)
+  refine ⟨?_, ?_, ?_⟩
+  · rw [closedForm, srcs_emit]
+    exact perm_append_filter_not_mem _ _ hk.rows_nodup List.nodup_range
+      (fun a ha => by
+        obtain ⟨p, hp, rfl⟩ := List.mem_map.1 ha
+        exact List.mem_range.2 (hk.rows_lt p hp))
+  · rw [closedForm, tgts_emit]
+    exact perm_append_filter_not_mem _ _ hk.cols_nodup List.nodup_range
+      (fun a ha => by
+        obtain ⟨p, hp, rfl⟩ := List.mem_map.1 ha
+        exact List.mem_range.2 (hk.cols_lt p hp))
+  · intro e he
+    simp only [closedForm, emit, List.mem_append, List.mem_map] at he
+    rcases he with (⟨p, _, rfl⟩ | ⟨i, _, rfl⟩) | ⟨j, _, rfl⟩ <;> simp [pairEntry, srcOnly, tgtOnly]
+
+/-- the same in counting form: each index below the length occurs exactly once and
+    nothing else occurs -/
+theorem C07_cover_count (n m : Nat) (aff : Mat) (assigned : List (Nat × Nat)) (out : List Entry)
+    (h : ValidAssignment n m assigned) (hout : selectMatches n m aff assigned = .ok out) :
+    (∀ i, (srcs out).count i = if i < n then 1 else 0) ∧
+    (∀ j, (tgts out).count j = if j < m then 1 else 0) := by
+  obtain ⟨hs, ht, _⟩ := C07_cover n m aff assigned out h hout
+  constructor
+  · intro i
+    rw [hs.count_eq, List.nodup_range.count]; simp
+  · intro j
+    rw [ht.count_eq, List.nodup_range.count]; simp
+
+/-- a source is paired with a target only if their affinity is positive, and the pair is one
+    the solver assigned -/
+theorem C07_positive_pairs (n m : Nat) (aff : Mat) (assigned : List (Nat × Nat)) (out : List Entry)
+    (h : ValidAssignment n m assigned) (hout : selectMatches n m aff assigned = .ok out) :
+    ∀ e ∈ out, ∀ i j, e.src = some i → e.tgt = some j → 0 < aff i j ∧ (i, j) ∈ assigned := by
+  rw [C07_total n m aff assigned h] at hout
+  cases hout
+  intro e he i j hi hj
+  simp only [closedForm, emit, List.mem_append, List.mem_map] at he
+  rcases he with (⟨p, hp, rfl⟩ | ⟨i', _, rfl⟩) | ⟨j', _, rfl⟩
+  · simp only [pairEntry, Option.some.injEq] at hi hj
+    subst hi hj
+    exact ⟨keptPairs_pos aff assigned p hp, (keptPairs_sublist aff assigned).subset hp⟩
+  · simp [srcOnly] at hj
+  · simp [tgtOnly] at hi
+
+/-- conversely every pair the solver assigned with positive affinity is reported -/
+theorem C07_positive_assigned_reported (n m : Nat) (aff : Mat) (assigned : List (Nat × Nat))
+    (out : List Entry) (h : ValidAssignment n m assigned)
+    (hout : selectMatches n m aff assigned = .ok out) :
+    ∀ p ∈ assigned, 0 < aff p.1 p.2 → ⟨some p.1, some p.2, aff p.1 p.2⟩ ∈ out := by
+  rw [C07_total n m aff assigned h] at hout
+  cases hout
+  intro p hp hpos
+  simp only [closedForm, emit, List.mem_append, List.mem_map]
+  refine Or.inl (Or.inl ⟨p, ?_, rfl⟩)
+  simp [keptPairs, List.mem_filter, hp, hpos]
+
+/-- the reported affinity of a pair is exactly its matrix entry -/
+theorem C07_reported_affinity (n m : Nat) (aff : Mat) (assigned : List (Nat × Nat)) (out : List Entry)
+    (h : ValidAssignment n m assigned) (hout : selectMatches n m aff assigned = .ok out) :
+    ∀ e ∈ out, ∀ i j, e.src = some i → e.tgt = some j → e.aff = aff i j := by
+  rw [C07_total n m aff assigned h] at hout
+  cases hout
+  intro e he i j hi hj
+  simp only [closedForm, emit, List.mem_append, List.mem_map] at he
+  rcases he with (⟨p, hp, rfl⟩ | ⟨i', _, rfl⟩) | ⟨j', _, rfl⟩
+  · simp only [pairEntry, Option.some.injEq] at hi hj
+    subst hi hj
+    rfl
+  · simp [srcOnly] at hj
+  · simp [tgtOnly] at hi
+
+/-- unpaired entries report 0 -/
+theorem C07_unpaired_zero (n m : Nat) (aff : Mat) (assigned : List (Nat × Nat)) (out : List Entry)
+    (h : ValidAssignment n m assigned) (hout : selectMatches n m aff assigned = .ok out) :
+    ∀ e ∈ out, (e.src = none ∨ e.tgt = none) → e.aff = 0 := by
+  rw [C07_total n m aff assigned h] at hout
+  cases hout
+  intro e he hn
+  simp only [closedForm, emit, List.mem_append, List.mem_map] at he
+  rcases he with (⟨p, hp, rfl⟩ | ⟨i', _, rfl⟩) | ⟨j', _, rfl⟩
+  · simp [pairEntry] at hn
+  · rfl
+  · rfl
+
+/-- the brute-force optimum bounds the value of every one-to-one pairing -/
+theorem bestValue_upper (n m : Nat) (aff : Mat) (M : List (Nat × Nat)) (hM : PartialInjection n m M) :
+    value aff M ≤ bestValue n m aff :=
+  best_upper aff m n [] M hM.matching
+
+/-- and it is the value of one of them: `bestValue` *is* the maximum -/
+theorem bestValue_attained (n m : Nat) (aff : Mat) :
+    ∃ M, PartialInjection n m M ∧ value aff M = bestValue n m aff := by
+  obtain ⟨M, hM, hv⟩ := best_attained aff m n []
+  exact ⟨M, hM.partialInjection, hv⟩
+
+/-- the executable optimality test means what it says: no one-to-one pairing has a total
+    affinity exceeding the sum of the reported affinities by more than `tol` -/
+theorem C07_optimal (tol : Rat) (n m : Nat) (aff : Mat) (out : List Entry)
+    (h : optimalWithin tol n m aff out = true) :
+    ∀ M, PartialInjection n m M → value aff M ≤ total out + tol := by
+  intro M hM
+  have h1 := bestValue_upper n m aff M hM
+  simp only [optimalWithin, decide_eq_true_eq] at h
+  exact Rat.le_trans h1 h
+
+/-- … and the test is complete: it fails only if some pairing beats the output by more than `tol` -/
+theorem C07_optimal_complete (tol : Rat) (n m : Nat) (aff : Mat) (out : List Entry)
+    (h : ∀ M, PartialInjection n m M → value aff M ≤ total out + tol) :
+    optimalWithin tol n m aff out = true := by
+  obtain ⟨M, hM, hv⟩ := bestValue_attained n m aff
+  simp only [optimalWithin, decide_eq_true_eq, ← hv]
+  exact h M hM
+
+/-- the sum of the reported affinities is the value of the pairs that were kept, which is a
+    one-to-one pairing: it never exceeds the optimum … -/
+theorem C07_total_le_best (n m : Nat) (aff : Mat) (assigned : List (Nat × Nat)) (out : List Entry)
+    (h : ValidAssignment n m assigned) (hout : selectMatches n m aff assigned = .ok out) :
+    total out ≤ bestValue n m aff := by
+  rw [C07_total n m aff assigned h] at hout
+  cases hout
+  rw [closedForm, total_emit]
+  exact bestValue_upper n m aff _ (h.sublist (keptPairs_sublist aff assigned))
+
+/-- … and reaches it (within `tol`) whenever the solver's answer does: skipping the
+    non-positive pairs loses nothing.  (`tol = 0`: the sum of reported affinities is the
+    maximum achievable by any one-to-one pairing.) -/
+theorem C07_optimal_of_solver (tol : Rat) (n m : Nat) (aff : Mat) (assigned : List (Nat × Nat))
+    (out : List Entry) (h : ValidAssignment n m assigned)
+    (hopt : ∀ M, PartialInjection n m M → value aff M ≤ value aff assigned + tol)
+    (hout : selectMatches n m aff assigned = .ok out) :
+    ∀ M, PartialInjection n m M → value aff M ≤ total out + tol := by
+  rw [C07_total n m aff assigned h] at hout
+  cases hout
+  intro M hM
+  rw [closedForm, total_emit]
+  have h1 := hopt M hM
+  have h2 := value_le_keptPairs aff assigned
+  grind
+
+/-- both lists empty: no matches; one list empty: every geometry of the other is one-sided -/
+theorem C07_empty (n m : Nat) (aff : Mat) (assigned : List (Nat × Nat)) (out : List Entry)
+    (h : ValidAssignment n m assigned) (hout : selectMatches n m aff assigned = .ok out)
+    (hnm : n = 0 ∨ m = 0) :
+    out = (List.range n).map srcOnly ++ (List.range m).map tgtOnly ∧
+    (n = 0 → m = 0 → out = []) := by
+  have ha : assigned = [] := by
+    cases assigned with
+    | nil => rfl
+    | cons p ps =>
+      have h1 := h.rows_lt p (by simp)
+      have h2 := h.cols_lt p (by simp)
+      omega
+  subst ha
+  have ht : ∀ l : List Nat, l.filter (fun _ => true) = l := fun l => List.filter_eq_self.2 (by simp)
+  simp only [selectMatches, assignLoop, emit, List.map_nil, List.nil_append, Except.ok.injEq] at hout
+  subst hout
+  refine ⟨rfl, ?_⟩
+  intro h0 h1; subst h0 h1; rfl
+
+/-- geometries without any overlap (all affinities zero) are all reported one-sided,
+    whatever the solver assigned -/
+theorem C07_no_overlap_all_unpaired (n m : Nat) (aff : Mat) (assigned : List (Nat × Nat))
+    (out : List Entry) (h : ValidAssignment n m assigned)
+    (hout : selectMatches n m aff assigned = .ok out) (hz : ∀ i j, i < n → j < m → aff i j ≤ 0) :
+    out = (List.range n).map srcOnly ++ (List.range m).map tgtOnly := by
+  rw [C07_total n m aff assigned h] at hout
+  cases hout
+  have hk : keptPairs aff assigned = [] := by
+    simp only [keptPairs, List.filter_eq_nil_iff, decide_eq_true_eq]
+    intro p hp
+    exact Rat.not_lt.2 (hz p.1 p.2 (h.rows_lt p hp) (h.cols_lt p hp))
+  have ht : ∀ l : List Nat, l.filter (fun _ => true) = l := fun l => List.filter_eq_self.2 (by simp)
+  simp [closedForm, hk, emit, ht]
+
+/-! ### the property as one predicate, and its executable form `holds` -/
+
+/-- the statement of C07 about an output `out` for the matrix `aff` (optimality up to `tol`) -/
+structure Spec (tol : Rat) (n m : Nat) (aff : Mat) (out : List Entry) : Prop where
+  cover_src : (srcs out).Perm (List.range n)
+  cover_tgt : (tgts out).Perm (List.range m)
+  nonempty : ∀ e ∈ out, e.src ≠ none ∨ e.tgt ≠ none
+  positive : ∀ e ∈ out, ∀ i j, e.src = some i → e.tgt = some j → 0 < aff i j
+  reported : ∀ e ∈ out, ∀ i j, e.src = some i → e.tgt = some j → e.aff = aff i j
+  unpaired : ∀ e ∈ out, (e.src = none ∨ e.tgt = none) → e.aff = 0
+  optimal : ∀ M, PartialInjection n m M → value aff M ≤ total out + tol
+
+/-- `holds` (what the check evaluates on the real output of `match_geometries`) is exactly
+    the property -/
+theorem C07_holds_iff (tol : Rat) (n m : Nat) (aff : Mat) (out : List Entry) :
+    holds tol n m aff out = true ↔ Spec tol n m aff out := by
+  simp only [holds, Verdict.all, judge, Bool.and_eq_true, List.isPerm_iff, List.all_eq_true]
+  constructor
+  · rintro ⟨⟨⟨hs, ht⟩, he⟩, ho⟩
+    refine ⟨hs, ht, ?_, ?_, ?_, ?_, C07_optimal tol n m aff out ho⟩
+    · intro e hin
+      have := he e hin
+      unfold entryOk at this
+      rcases hs' : e.src with _ | i <;> rcases ht' : e.tgt with _ | j <;> simp_all
+    · intro e hin i j hi hj
+      have := he e hin
+      simp only [entryOk, hi, hj, Bool.and_eq_true, decide_eq_true_eq] at this
+      exact this.1
+    · intro e hin i j hi hj
+      have := he e hin
+      simp only [entryOk, hi, hj, Bool.and_eq_true, decide_eq_true_eq] at this
+      exact this.2
+    · intro e hin hn
+      have := he e hin
+      unfold entryOk at this
+      rcases hs' : e.src with _ | i <;> rcases ht' : e.tgt with _ | j <;> simp_all
+  · intro h
+    refine ⟨⟨⟨h.cover_src, h.cover_tgt⟩, ?_⟩, C07_optimal_complete tol n m aff out h.optimal⟩
+    intro e hin
+    unfold entryOk
+    rcases hs' : e.src with _ | i <;> rcases ht' : e.tgt with _ | j
+    · have := h.nonempty e hin; simp_all
+    · simp [h.unpaired e hin (Or.inl hs')]
+    · simp [h.unpaired e hin (Or.inr ht')]
+    · simp [h.positive e hin i j hs' ht', h.reported e hin i j hs' ht']
+
+/-- the modelled `match_geometries` satisfies the property whenever the solver honours its
+    contract (a valid assignment that is optimal within `tol`) -/
+theorem C07_model_holds (tol : Rat) (n m : Nat) (aff : Mat) (assigned : List (Nat × Nat))
+    (out : List Entry) (h : ValidAssignment n m assigned)
+    (hopt : ∀ M, PartialInjection n m M → value aff M ≤ value aff assigned + tol)
+    (hout : selectMatches n m aff assigned = .ok out) :
+    holds tol n m aff out = true := by
+  rw [C07_holds_iff]
+  obtain ⟨hs, ht, hne⟩ := C07_cover n m aff assigned out h hout
+  exact ⟨hs, ht, hne,
+    fun e he i j hi hj => (C07_positive_pairs n m aff assigned out h hout e he i j hi hj).1,
+    C07_reported_affinity n m aff assigned out h hout,
+    C07_unpaired_zero n m aff assigned out h hout,
+    C07_optimal_of_solver tol n m aff assigned out h hopt hout⟩
+
+/-! ### non-vacuity and the repaired defect on concrete matrices -/
+
+/-- two boxes four seconds apart (affinity 0): the solver pairs them, the (repaired) code
+    reports two one-sided matches -/
+example : (selectMatches 1 1 (matOfRows [[0]]) [(0, 0)]).toOption = some [srcOnly 0, tgtOnly 0] := by decide +kernel
+example : validAssignment 1 1 [(0, 0)] = true := by decide +kernel
+/-- the pinned code's answer `[(0, 0, 0.0)]` violates the property (pair with affinity 0) -/
+example : (judge 0 1 1 (matOfRows [[0]]) [⟨some 0, some 0, 0⟩]).entries = false := by decide +kernel
+example : holds 0 1 1 (matOfRows [[0]]) [srcOnly 0, tgtOnly 0] = true := by decide +kernel
+/-- a 2 × 3 matrix with a tie and a zero column -/
+example : (selectMatches 2 3 (matOfRows [[1/2, 1/2, 0], [1/2, 0, 0]]) [(0, 1), (1, 0)]).toOption
+    = some [⟨some 0, some 1, 1/2⟩, ⟨some 1, some 0, 1/2⟩, tgtOnly 2] := by decide +kernel
+example : bestValue 2 3 (matOfRows [[1/2, 1/2, 0], [1/2, 0, 0]]) = 1 := by decide +kernel
+/-- a sub-optimal (greedy) answer is rejected by `optimalWithin` -/
+example : optimalWithin 0 2 2 (matOfRows [[1, 3/4], [3/4, 0]])
+    [⟨some 0, some 0, 1⟩, srcOnly 1, tgtOnly 1] = false := by decide +kernel
+example : optimalWithin 0 2 2 (matOfRows [[1, 3/4], [3/4, 0]])
+    [⟨some 0, some 1, 3/4⟩, ⟨some 1, some 0, 3/4⟩] = true := by decide +kernel
+/-- an invalid solver answer (row used twice) makes the loop raise, as `rows.remove` would -/
+example : (match selectMatches 2 2 (matOfRows [[1, 1], [1, 1]]) [(0, 0), (0, 1)] with
+    | .error .key => true | _ => false) = true := by decide +kernel
 
 end SE.Proofs.C07
